@@ -547,6 +547,25 @@ func checkConstructor(c *Ctx, rule string, g *ssa.Function, parent ssa.Value, ow
 			continue
 		}
 		construct := owner + " -> " + name
+		// views computed outside the constructor (captured variables) are computed once, not per attempt
+		captured := false
+		for _, a := range cc.Args {
+			tn := namedOf(a.Type())
+			if tn != "lake/commits.Patch" && tn != "lake/commits.Snapshot" && tn != "lake/commits.View" {
+				continue
+			}
+			v := stripConv(a)
+			if u, ok := v.(*ssa.UnOp); ok {
+				v = u.X
+			}
+			if _, ok := v.(*ssa.FreeVar); ok && depth == 0 {
+				captured = true
+			}
+		}
+		if captured {
+			c.Fail(rule, construct, ci.Pos(), "the commit object is built from a patch/snapshot that was computed outside the constructor, i.e. once before the retry loop, and merely re-parented on the current tip: a commit that lands on the branch in between is neither seen by the conflict check nor reflected in the object, so a merge/revert can commit a delete of an absent object or a duplicate add (the branch becomes unreadable)")
+			continue
+		}
 		good, stale := false, false
 		for _, a := range cc.Args {
 			if namedOf(a.Type()) != "github.com/segmentio/ksuid.KSUID" && !strings.HasSuffix(a.Type().String(), "ksuid.KSUID") {
